@@ -4,7 +4,9 @@ import (
 	"fmt"
 	"go/constant"
 	"go/token"
+	"go/types"
 	"sort"
+	"strings"
 
 	"golang.org/x/tools/go/ssa"
 )
@@ -16,19 +18,198 @@ import (
 // of every write to the cursor fields; the arithmetic of pos/width/line under next/backup/absorb is run-time behaviour and
 // is not decided here.
 
-func isLexerFieldLoad(v ssa.Value, field string) bool {
-	for _, o := range origins(v) {
-		u, ok := o.(*ssa.UnOp)
-		if !ok || u.Op != token.MUL || fieldKey(u.X) != "lexer.Lexer."+field {
-			return false
+// lexPath names a memory cell of the lexer by the chain of field names that leads to it from a *Lexer value ("start",
+// "cur.pos"): the rules identify the cursor cells by the role they play in emit, not by their names.
+func lexPath(addr ssa.Value) string {
+	fa, ok := addr.(*ssa.FieldAddr)
+	if !ok {
+		return ""
+	}
+	st, ok := deref(fa.X.Type()).Underlying().(*types.Struct)
+	if !ok || fa.Field >= st.NumFields() {
+		return ""
+	}
+	name := st.Field(fa.Field).Name()
+	if isNamed(deref(fa.X.Type()), pkgPath("lexer"), "Lexer") {
+		return name
+	}
+	if p := lexPath(fa.X); p != "" {
+		return p + "." + name
+	}
+	return ""
+}
+
+func deref(t types.Type) types.Type {
+	if p, ok := t.Underlying().(*types.Pointer); ok {
+		return p.Elem()
+	}
+	return t
+}
+
+// lexLoadPath: v is (on every origin) the content of one lexer cell; returns its path.
+func lexLoadPath(v ssa.Value) string {
+	os := origins(v)
+	p := ""
+	for _, o := range os {
+		q := ""
+		switch x := o.(type) {
+		case *ssa.UnOp:
+			if x.Op == token.MUL {
+				q = lexPath(x.X)
+			}
+		case *ssa.Field:
+			if st, ok := x.X.Type().Underlying().(*types.Struct); ok && x.Field < st.NumFields() {
+				if b := lexLoadPath(x.X); b != "" {
+					q = b + "." + st.Field(x.Field).Name()
+				}
+			}
+		}
+		if q == "" || (p != "" && p != q) {
+			return ""
+		}
+		p = q
+	}
+	return p
+}
+
+type lexAssign struct {
+	st   *ssa.Store
+	from string    // the lexer cell whose content is assigned ("" when it is not the plain content of a cell)
+	val  ssa.Value // the assigned value when the store names the cell exactly
+}
+
+// lexAssigns: every store of the lexer package that writes cell (directly, or as part of a struct that contains it).
+func (c *Ctx) lexAssigns(cell string) []lexAssign {
+	var out []lexAssign
+	for _, f := range c.ModFuncs {
+		if shortPkg(fnPkgPath(f)) != "lexer" {
+			continue
+		}
+		for _, b := range f.Blocks {
+			for _, in := range b.Instrs {
+				st, ok := in.(*ssa.Store)
+				if !ok {
+					continue
+				}
+				p := lexPath(st.Addr)
+				switch {
+				case p == "":
+				case p == cell:
+					out = append(out, lexAssign{st: st, from: lexLoadPath(st.Val), val: st.Val})
+				case strings.HasPrefix(cell, p+"."):
+					a := lexAssign{st: st}
+					if q := lexLoadPath(st.Val); q != "" {
+						a.from = q + cell[len(p):]
+					} else {
+						a.val = localFieldValue(st.Val, strings.Split(cell[len(p)+1:], "."))
+					}
+					out = append(out, a)
+				}
+			}
 		}
 	}
-	return len(origins(v)) > 0
+	sort.Slice(out, func(i, j int) bool { return c.ipos(out[i].st) < c.ipos(out[j].st) })
+	return out
+}
+
+// localFieldValue: v is the content of a local struct variable; the value stored into its field path, when there is exactly one.
+func localFieldValue(v ssa.Value, path []string) ssa.Value {
+	for _, name := range path {
+		u, ok := v.(*ssa.UnOp)
+		if !ok || u.Op != token.MUL {
+			return nil
+		}
+		al, ok := u.X.(*ssa.Alloc)
+		if !ok {
+			return nil
+		}
+		var found ssa.Value
+		n := 0
+		for _, ref := range *al.Referrers() {
+			fa, ok := ref.(*ssa.FieldAddr)
+			if !ok {
+				continue
+			}
+			st, ok := deref(fa.X.Type()).Underlying().(*types.Struct)
+			if !ok || st.Field(fa.Field).Name() != name {
+				continue
+			}
+			for _, r2 := range *fa.Referrers() {
+				if s, ok := r2.(*ssa.Store); ok && s.Addr == fa {
+					found = s.Val
+					n++
+				}
+			}
+		}
+		if n != 1 {
+			return nil
+		}
+		v = found
+	}
+	return v
+}
+
+// lexRoles: the cells of the lexer by the role they play in emit.
+type lexRoles struct {
+	input, start, pos, startLine, line string
+	why                                string
+}
+
+func (c *Ctx) lexRoles() *lexRoles {
+	if c.lexRolesDone != nil {
+		return c.lexRolesDone
+	}
+	ro := &lexRoles{}
+	c.lexRolesDone = ro
+	emit := c.method("lexer", "Lexer", "emit")
+	var send *ssa.Send
+	for _, b := range emit.Blocks {
+		for _, in := range b.Instrs {
+			if sd, ok := in.(*ssa.Send); ok {
+				send = sd
+			}
+		}
+	}
+	if send == nil {
+		ro.why = "emit does not send on a channel itself"
+		return ro
+	}
+	for _, st := range c.fieldStores()["token.Token.Value"] {
+		if st.Parent() != emit || !before(st, send) {
+			continue
+		}
+		for _, o := range origins(st.Val) {
+			sl, ok := o.(*ssa.Slice)
+			if !ok || sl.Low == nil || sl.High == nil {
+				continue
+			}
+			ro.input, ro.start, ro.pos = lexLoadPath(sl.X), lexLoadPath(sl.Low), lexLoadPath(sl.High)
+		}
+	}
+	for _, st := range c.fieldStores()["token.Token.Line"] {
+		if st.Parent() == emit && before(st, send) {
+			ro.startLine = lexLoadPath(st.Val)
+		}
+	}
+	if ro.startLine != "" {
+		for _, a := range c.lexAssigns(ro.startLine) {
+			if a.st.Parent() == emit && before(send, a.st) && a.from != "" {
+				ro.line = a.from
+			}
+		}
+	}
+	switch {
+	case ro.input == "" || ro.start == "" || ro.pos == "":
+		ro.why = "the Value of the token sent by emit is not a slice of a lexer field between two lexer fields"
+	case ro.start == ro.pos:
+		ro.why = "the Value of the token sent by emit is sliced between a cell and itself"
+	}
+	return ro
 }
 
 func ruleTL1(c *Ctx) *rule {
 	r := &rule{ID: "TL1", Engine: "E3", Floor: 4,
-		Statement: "the token sent by emit has Value = input[start:pos] (or the empty string), Pos = start and Line = startLine, its Type is emit's parameter, and after the send start is set to pos and startLine to line on every path to the return",
+		Statement: "the token sent by emit has Value = input[start:pos] (or the empty string) for two distinct cursor cells start and pos of the lexer, Pos = that same start, Line = a third cell startLine, its Type is emit's parameter, and after the send start is set to pos and startLine to a fourth cell line on every path to the return",
 		Necessity: "a token's text is the slice of the input at its recorded offset only if both are taken from the same start; the next token begins where this one ended (no gap, no overlap) only if start is moved up to pos"}
 	emit := c.method("lexer", "Lexer", "emit")
 	var send *ssa.Send
@@ -43,10 +224,12 @@ func ruleTL1(c *Ctx) *rule {
 			}
 		}
 	}
+	ro := c.lexRoles()
 	if send == nil {
-		r.undecided("lexer.(*Lexer).emit send", c.pos(emit.Pos()), "emit does not send on a channel itself")
+		r.undecided("lexer.(*Lexer).emit send", c.pos(emit.Pos()), ro.why)
 		return r
 	}
+	r.note("cursor cells by role: input=%s start=%s pos=%s startLine=%s line=%s", ro.input, ro.start, ro.pos, ro.startLine, ro.line)
 	// the field stores of the token literal that is sent
 	stores := map[string][]*ssa.Store{}
 	for _, f := range []string{"Value", "Type", "Pos", "Line"} {
@@ -78,25 +261,32 @@ func ruleTL1(c *Ctx) *rule {
 			return s == ""
 		}
 		sl, ok := o.(*ssa.Slice)
-		if !ok || sl.Low == nil || sl.High == nil {
+		if !ok || sl.Low == nil || sl.High == nil || ro.why != "" {
 			return false
 		}
-		return isLexerFieldLoad(sl.X, "input") && isLexerFieldLoad(sl.Low, "start") && isLexerFieldLoad(sl.High, "pos")
+		return lexLoadPath(sl.X) == ro.input && lexLoadPath(sl.Low) == ro.start && lexLoadPath(sl.High) == ro.pos
 	}, "input[start:pos]")
-	check("Pos", func(o ssa.Value) bool { return isLexerFieldLoad(o, "start") }, "the lexer's start")
-	check("Line", func(o ssa.Value) bool { return isLexerFieldLoad(o, "startLine") }, "the lexer's startLine")
+	check("Pos", func(o ssa.Value) bool { return ro.start != "" && lexLoadPath(o) == ro.start }, "the start the text was sliced from ("+ro.start+")")
+	check("Line", func(o ssa.Value) bool {
+		p := lexLoadPath(o)
+		return p != "" && p != ro.start && p != ro.pos && p != ro.input
+	}, "a line cell of the lexer")
 	check("Type", func(o ssa.Value) bool { p, ok := o.(*ssa.Parameter); return ok && p.Parent() == emit }, "emit's parameter")
 	// after the send: start = pos, startLine = line, on every path to a return
-	for _, pair := range [][2]string{{"start", "pos"}, {"startLine", "line"}} {
-		key := "lexer.(*Lexer).emit " + pair[0] + " := " + pair[1]
+	for _, pair := range [][3]string{{"start", ro.start, ro.pos}, {"startLine", ro.startLine, ro.line}} {
+		key := "lexer.(*Lexer).emit " + pair[0] + " moved up"
+		if pair[1] == "" {
+			r.bad(key, c.ipos(send), "the cell that plays "+pair[0]+" cannot be identified")
+			continue
+		}
 		var after *ssa.Store
-		for _, st := range c.fieldStores()["lexer.Lexer."+pair[0]] {
-			if st.Parent() == emit && before(send, st) && isLexerFieldLoad(st.Val, pair[1]) {
-				after = st
+		for _, a := range c.lexAssigns(pair[1]) {
+			if a.st.Parent() == emit && before(send, a.st) && a.from != "" && a.from == pair[2] && a.from != pair[1] {
+				after = a.st
 			}
 		}
 		if after == nil {
-			r.bad(key, c.ipos(send), "after the send "+pair[0]+" is not moved up to "+pair[1]+": the next token starts inside (or before) this one")
+			r.bad(key, c.ipos(send), "after the send "+pair[1]+" is not moved up to the scan position: the next token starts inside (or before) this one")
 			continue
 		}
 		all := true
@@ -106,9 +296,9 @@ func ruleTL1(c *Ctx) *rule {
 			}
 		}
 		if all {
-			r.ok(key, c.ipos(after), "on every path from the send to the return")
+			r.ok(key, c.ipos(after), pair[1]+" := "+pair[2]+" on every path from the send to the return")
 		} else {
-			r.bad(key, c.ipos(after), "a path from the send returns without moving "+pair[0]+" up to "+pair[1])
+			r.bad(key, c.ipos(after), "a path from the send returns without moving "+pair[1]+" up to "+pair[2])
 		}
 	}
 	return r
@@ -116,51 +306,59 @@ func ruleTL1(c *Ctx) *rule {
 
 func ruleTL2(c *Ctx) *rule {
 	r := &rule{ID: "TL2", Engine: "E3", Floor: 2,
-		Statement: "outside the constructor every store into Lexer.start stores Lexer.pos and every store into Lexer.startLine stores Lexer.line, and the two come together (same block); the constructor starts at offset 0, line 1",
+		Statement: "outside the constructor every store into the lexer's start cell stores its pos cell and every store into startLine stores line (the cells as identified in emit), and the two come together (same block); the constructor starts at offset 0, line 1",
 		Necessity: "offsets are increasing and tokens do not overlap because start only ever jumps forward to the scan position; the recorded line is the line of that same position only if startLine is taken from line at the same moment"}
+	ro := c.lexRoles()
+	if ro.why != "" || ro.startLine == "" || ro.line == "" {
+		r.undecided("lexer cursor cells", "-", "the cursor cells cannot be identified from emit ("+ro.why+")")
+		return r
+	}
 	newF := c.fn("lexer", "New")
 	seen := map[string]bool{}
 	n := 0
-	for _, pair := range [][2]string{{"start", "pos"}, {"startLine", "line"}} {
-		for _, st := range c.fieldStores()["lexer.Lexer."+pair[0]] {
+	for _, role := range [][4]string{{"start", ro.start, ro.pos, ro.startLine}, {"startLine", ro.startLine, ro.line, ro.start}} {
+		for _, a := range c.lexAssigns(role[1]) {
+			st := a.st
 			f := st.Parent()
-			if !inModule(f) || seen[c.ipos(st)+pair[0]] {
+			if seen[c.ipos(st)+role[0]] {
 				continue
 			}
-			seen[c.ipos(st)+pair[0]] = true
+			seen[c.ipos(st)+role[0]] = true
 			n++
-			key := fmt.Sprintf("Lexer.%s store#%d (seen in %s)", pair[0], n, fname(f))
+			key := fmt.Sprintf("lexer %s (%s) store#%d", role[0], role[1], n)
 			if f == newF {
 				want := int64(0)
-				if pair[0] == "startLine" {
+				if role[0] == "startLine" {
 					want = 1
 				}
-				if k, ok := constInt(st.Val); ok && k == want {
+				if a.val == nil {
+					continue // set through a value the checker does not follow (not an obligation)
+				}
+				if k, ok := constInt(a.val); ok && k == want {
 					r.ok(key, c.ipos(st), fmt.Sprintf("the constructor starts at %d", want))
-				} else {
-					r.bad(key, c.ipos(st), fmt.Sprintf("the constructor sets %s to %s, not %d", pair[0], condText(st.Val), want))
+				} else if ok {
+					r.bad(key, c.ipos(st), fmt.Sprintf("the constructor sets %s to %d, not %d", role[1], k, want))
 				}
 				continue
 			}
-			if !isLexerFieldLoad(st.Val, pair[1]) {
-				r.bad(key, c.ipos(st), fmt.Sprintf("%s is set to %s, not to the lexer's %s", pair[0], condText(st.Val), pair[1]))
+			if a.from != role[2] {
+				what := a.from
+				if what == "" {
+					what = condText(st.Val)
+				}
+				r.bad(key, c.ipos(st), fmt.Sprintf("%s is set to %s, not to the lexer's %s", role[1], what, role[2]))
 				continue
 			}
-			// its partner in the same block
-			other := "startLine"
-			if pair[0] == "startLine" {
-				other = "start"
-			}
 			paired := false
-			for _, st2 := range c.fieldStores()["lexer.Lexer."+other] {
-				if st2.Block() == st.Block() {
+			for _, a2 := range c.lexAssigns(role[3]) {
+				if a2.st.Block() == st.Block() {
 					paired = true
 				}
 			}
 			if paired {
-				r.ok(key, c.ipos(st), pair[0]+" := "+pair[1]+", together with "+other)
+				r.ok(key, c.ipos(st), role[1]+" := "+role[2]+", together with "+role[3])
 			} else {
-				r.bad(key, c.ipos(st), pair[0]+" is moved without "+other+": offset and line of the next token are taken at different moments")
+				r.bad(key, c.ipos(st), role[1]+" is moved without "+role[3]+": offset and line of the next token are taken at different moments")
 			}
 		}
 	}
@@ -169,32 +367,41 @@ func ruleTL2(c *Ctx) *rule {
 
 func ruleTL3(c *Ctx) *rule {
 	r := &rule{ID: "TL3", Engine: "E2+E3", Floor: 2,
-		Statement: "the line counter changes only by one: it is incremented only under the necessary guard that the rune just decoded from the input is '\\n', decremented only when stepping back, and set to 1 by the constructor",
+		Statement: "the line counter (the cell emit copies into startLine) changes only by one: it is incremented only under the necessary guard that the rune just decoded from the input is '\\n', decremented only when stepping back, and set to 1 by the constructor",
 		Necessity: "a token's line is one plus the number of newlines before it only if the counter moves on newlines and on nothing else"}
+	ro := c.lexRoles()
+	if ro.why != "" || ro.line == "" {
+		r.undecided("lexer line counter", "-", "the line counter cannot be identified from emit ("+ro.why+")")
+		return r
+	}
 	seen := map[string]bool{}
 	n := 0
-	var sts []*ssa.Store
-	sts = append(sts, c.fieldStores()["lexer.Lexer.line"]...)
-	sort.Slice(sts, func(i, j int) bool { return c.ipos(sts[i]) < c.ipos(sts[j]) })
 	newF := c.fn("lexer", "New")
-	for _, st := range sts {
+	for _, a := range c.lexAssigns(ro.line) {
+		st := a.st
 		f := st.Parent()
-		if !inModule(f) || seen[c.ipos(st)] {
+		if seen[c.ipos(st)] {
 			continue
 		}
 		seen[c.ipos(st)] = true
 		n++
-		key := fmt.Sprintf("Lexer.line store#%d (seen in %s)", n, fname(f))
+		key := fmt.Sprintf("lexer line (%s) store#%d", ro.line, n)
 		if f == newF {
-			if k, ok := constInt(st.Val); ok && k == 1 {
+			if a.val == nil {
+				continue
+			}
+			if k, ok := constInt(a.val); ok && k == 1 {
 				r.ok(key, c.ipos(st), "the constructor starts on line 1")
-			} else {
+			} else if ok {
 				r.bad(key, c.ipos(st), "the constructor does not start on line 1")
 			}
 			continue
 		}
-		bin, ok := st.Val.(*ssa.BinOp)
-		if !ok || !isLexerFieldLoad(bin.X, "line") {
+		var bin *ssa.BinOp
+		if a.val != nil {
+			bin, _ = a.val.(*ssa.BinOp)
+		}
+		if bin == nil || lexLoadPath(bin.X) != ro.line {
 			r.undecided(key, c.ipos(st), "the line counter is set to "+condText(st.Val)+", which is not line+1 / line-1")
 			continue
 		}
@@ -203,14 +410,18 @@ func ruleTL3(c *Ctx) *rule {
 		case isK && k == 1 && bin.Op == token.SUB:
 			r.ok(key, c.ipos(st), "line-1 (stepping back)")
 		case isK && k == 1 && bin.Op == token.ADD:
-			guarded := false
+			guarded, mixed := false, false
 			for _, g := range c.info(f).necessaryGuards(st.Block()) {
-				if isNewlineTest(g) {
+				if isNewlineTest(g, true) {
 					guarded = true
+				} else if isNewlineTest(g, false) {
+					mixed = true
 				}
 			}
 			if guarded {
 				r.ok(key, c.ipos(st), "line+1 under the necessary guard 'the decoded rune is \\n'")
+			} else if mixed {
+				r.undecided(key, c.ipos(st), "the line counter is incremented when a rune equals '\\n', but that rune is not always the one decoded from the input (a substituted newline, e.g. for \\r\\n): whether increments and decrements still pair up is a value-level question")
 			} else {
 				r.bad(key, c.ipos(st), "the line counter is incremented without the necessary guard that the rune just decoded is '\\n'")
 			}
@@ -221,8 +432,107 @@ func ruleTL3(c *Ctx) *rule {
 	return r
 }
 
-// isNewlineTest: the guard says that a rune obtained from utf8.DecodeRuneInString equals '\n'.
-func isNewlineTest(g guard) bool {
+func ruleTL4(c *Ctx) *rule {
+	r := &rule{ID: "TL4", Engine: "E3", Floor: 3,
+		Statement: "the scan position (the cell emit slices up to) moves only by the width of the rune just decoded (forwards when it is consumed, backwards when it is put back), by the length of a token's fixed spelling, or by a constant; any other move (a jump to a searched-for position) is not followed by the checker",
+		Necessity: "the line counter is kept by the function that consumes one rune: a move of the position that does not go through it passes newlines without counting them, and every later token carries a line that is too small"}
+	ro := c.lexRoles()
+	if ro.why != "" {
+		r.undecided("lexer cursor cells", "-", "the cursor cells cannot be identified from emit ("+ro.why+")")
+		return r
+	}
+	newF := c.fn("lexer", "New")
+	isWidth := func(v ssa.Value) bool {
+		decoded := func(x ssa.Value) bool {
+			for _, o := range origins(x) {
+				ex, ok := o.(*ssa.Extract)
+				if !ok || ex.Index != 1 {
+					return false
+				}
+				call, ok := ex.Tuple.(*ssa.Call)
+				if !ok {
+					return false
+				}
+				switch calleeName(call.Common()) {
+				case "unicode/utf8.DecodeRuneInString", "unicode/utf8.DecodeRune", "unicode/utf8.DecodeLastRuneInString":
+				default:
+					return false
+				}
+			}
+			return len(origins(x)) > 0
+		}
+		if decoded(v) {
+			return true
+		}
+		w := lexLoadPath(v)
+		if w == "" || w == ro.pos || w == ro.start {
+			return false
+		}
+		n := 0
+		for _, a := range c.lexAssigns(w) {
+			if a.st.Parent() == newF {
+				continue
+			}
+			n++
+			if a.val == nil || !decoded(a.val) {
+				return false
+			}
+		}
+		return n > 0
+	}
+	isSpelling := func(v ssa.Value) bool {
+		call, ok := v.(*ssa.Call)
+		if !ok {
+			return false
+		}
+		b, ok := call.Common().Value.(*ssa.Builtin)
+		if !ok || b.Name() != "len" {
+			return false
+		}
+		for _, o := range origins(call.Common().Args[0]) {
+			sc, ok := o.(*ssa.Call)
+			if !ok || !strings.HasSuffix(calleeName(sc.Common()), "token.Type).String") {
+				return false
+			}
+		}
+		return true
+	}
+	seen := map[string]bool{}
+	n := 0
+	for _, a := range c.lexAssigns(ro.pos) {
+		st := a.st
+		if st.Parent() == newF || seen[c.ipos(st)] {
+			continue
+		}
+		seen[c.ipos(st)] = true
+		n++
+		key := fmt.Sprintf("lexer pos (%s) store#%d", ro.pos, n)
+		var bin *ssa.BinOp
+		if a.val != nil {
+			bin, _ = a.val.(*ssa.BinOp)
+		}
+		if bin == nil || (bin.Op != token.ADD && bin.Op != token.SUB) || lexLoadPath(bin.X) != ro.pos {
+			r.undecided(key, c.ipos(st), "the scan position is set to "+condText(st.Val)+": not a step from the current position")
+			continue
+		}
+		_, isConst := constInt(bin.Y)
+		switch {
+		case isWidth(bin.Y):
+			r.ok(key, c.ipos(st), "moves by the width of the decoded rune")
+		case isSpelling(bin.Y):
+			r.ok(key, c.ipos(st), "moves by the length of a token's fixed spelling")
+		case isConst:
+			r.ok(key, c.ipos(st), "moves by a constant")
+		default:
+			r.undecided(key, c.ipos(st), "the scan position moves by "+condText(bin.Y)+": whether the text passed over contains a newline (which would go uncounted) is a value-level question")
+		}
+	}
+	return r
+}
+
+// isNewlineTest: the guard says that a rune obtained from utf8.DecodeRuneInString equals '\n' (strict: on every origin of the rune;
+// otherwise: on at least one, the others being substituted values).
+func isNewlineTest(g guard, strict bool) bool {
 	bin, ok := g.cond.(*ssa.BinOp)
 	if !ok {
 		return false
@@ -241,26 +551,27 @@ func isNewlineTest(g guard) bool {
 	if n, _ := constant.Int64Val(k.Value); n != '\n' {
 		return false
 	}
+	decoded := 0
 	for _, o := range origins(x) {
 		ex, ok := o.(*ssa.Extract)
-		if !ok || ex.Index != 0 {
-			return false
+		if ok && ex.Index == 0 {
+			if call, isCall := ex.Tuple.(*ssa.Call); isCall {
+				switch calleeName(call.Common()) {
+				case "unicode/utf8.DecodeRuneInString", "unicode/utf8.DecodeRune":
+					decoded++
+					continue
+				}
+			}
 		}
-		call, ok := ex.Tuple.(*ssa.Call)
-		if !ok {
-			return false
-		}
-		switch calleeName(call.Common()) {
-		case "unicode/utf8.DecodeRuneInString", "unicode/utf8.DecodeRune":
-		default:
+		if strict {
 			return false
 		}
 	}
-	return true
+	return decoded > 0
 }
 
 // endOfInputTest: cond compares Lexer.pos with len(Lexer.input); holds is the truth value of cond when pos is at (or past) the end.
-func endOfInputTest(cond ssa.Value) (holds bool, ok bool) {
+func endOfInputTest(ro *lexRoles, cond ssa.Value) (holds bool, ok bool) {
 	bin, isBin := cond.(*ssa.BinOp)
 	if !isBin {
 		return false, false
@@ -271,17 +582,17 @@ func endOfInputTest(cond ssa.Value) (holds bool, ok bool) {
 			return false
 		}
 		b, ok := call.Common().Value.(*ssa.Builtin)
-		return ok && b.Name() == "len" && isLexerFieldLoad(call.Common().Args[0], "input")
+		return ok && b.Name() == "len" && lexLoadPath(call.Common().Args[0]) == ro.input
 	}
 	switch {
-	case isLexerFieldLoad(bin.X, "pos") && isLen(bin.Y):
+	case lexLoadPath(bin.X) == ro.pos && isLen(bin.Y):
 		switch bin.Op {
 		case token.GEQ, token.EQL:
 			return true, true
 		case token.LSS, token.NEQ:
 			return false, true
 		}
-	case isLen(bin.X) && isLexerFieldLoad(bin.Y, "pos"):
+	case isLen(bin.X) && lexLoadPath(bin.Y) == ro.pos:
 		switch bin.Op {
 		case token.LEQ, token.EQL:
 			return true, true
@@ -323,6 +634,11 @@ func ruleLX3(c *Ctx) *rule {
 		Necessity: "the end-of-file token is positioned at the end of the input only if it is emitted there and nowhere else: an EOF emitted on another condition (a NUL byte, an unexpected character) ends the scan early without error"}
 	states, emit, _ := c.lexStates()
 	eof := tokenConst(c, "EOF")
+	ro := c.lexRoles()
+	if ro.why != "" {
+		r.undecided("lexer cursor cells", "-", "the cursor cells cannot be identified from emit ("+ro.why+")")
+		return r
+	}
 	var fns []*ssa.Function
 	for f := range states {
 		fns = append(fns, f)
@@ -341,7 +657,7 @@ func ruleLX3(c *Ctx) *rule {
 			key := fmt.Sprintf("lexer.%s emit(EOF)#%d", f.Name(), n)
 			found, other := false, ""
 			for _, g := range c.info(f).necessaryGuards(site.Block()) {
-				if holds, ok := endOfInputTest(g.cond); ok {
+				if holds, ok := endOfInputTest(ro, g.cond); ok {
 					if holds == g.pol {
 						found = true
 					}
@@ -368,9 +684,9 @@ func ruleLX3(c *Ctx) *rule {
 func lexerProperties() []*propertySpec {
 	return []*propertySpec{
 		{ID: "C16", Title: "Tokens tile the input with exact offsets and line numbers",
-			Explanation: "Decides the structural clauses of the property only. TL1 pins the single place where a token describes itself: emit sends Token{Value: input[start:pos], Pos: start, Line: startLine} and then moves start/startLine up to pos/line on every path. TL2 proves that start only ever jumps to pos (and startLine to line, together), so offsets increase and tokens cannot overlap. TL3 proves the line counter moves by one, upward only under the necessary guard that the rune just decoded is a newline. LX1 (shared with C08) proves a scan ends only through an ERROR token or directly after emit(EOF); LX3 proves emit(EOF) has the necessary guard pos >= len(input). The arithmetic of pos/width/line under next/backup/absorb for all inputs - whether what lies between two tokens is whitespace, whether backup restores the line after a multi-byte rune, CRLF handling - is run-time behaviour and is not decided.",
+			Explanation: "Decides the structural clauses of the property only. TL1 pins the single place where a token describes itself: emit sends Token{Value: input[start:pos], Pos: start, Line: startLine} and then moves start/startLine up to pos/line on every path. TL2 proves that start only ever jumps to pos (and startLine to line, together), so offsets increase and tokens cannot overlap. TL3 proves the line counter moves by one, upward only under the necessary guard that the rune just decoded is a newline. TL4 proves the scan position moves only by the width of the decoded rune, the length of a fixed token spelling or a constant (anything else is undecided). PR4 (shared with C08) proves the lexer scans the caller's string unchanged, so offsets refer to it. LX1 (shared with C08) proves a scan ends only through an ERROR token or directly after emit(EOF); LX3 proves emit(EOF) has the necessary guard pos >= len(input). The arithmetic of pos/width/line under next/backup/absorb for all inputs - whether what lies between two tokens is whitespace, whether backup restores the line after a multi-byte rune, CRLF handling - is run-time behaviour and is not decided.",
 			NotCovered:  []string{"that only whitespace lies between tokens", "the value of pos/line after next/backup/absorb sequences (cursor arithmetic over all inputs)", "finiteness of the stream (progress of every state)", "line numbers across \\r\\n and multi-byte runes"},
 			Assumptions: []string{"utf8.DecodeRuneInString returns the first rune of its argument", "a Go string slice input[a:b] is the bytes from a to b"},
-			Rules:       []func(*Ctx) *rule{ruleTL1, ruleTL2, ruleTL3, ruleLX1, ruleLX3}},
+			Rules:       []func(*Ctx) *rule{ruleTL1, ruleTL2, ruleTL3, ruleTL4, ruleLX1, ruleLX3, rulePR4}},
 	}
 }
